@@ -1,0 +1,18 @@
+//go:build verif
+
+package schemas
+
+// Contracts for the govc verifier (/verif). Comment-only; excluded from every
+// normal build by the tag above.
+
+// ---- deliberate error drops (C18 error-propagation obligations) --------------
+//@ func Load$1
+//@   errdrop Close: closing a response body after reading; nothing to report
+//@ func (*Type).UnmarshalJSON
+//@   errdrop json.Unmarshal: the first attempt (boolean schema) failing just selects the object form; the later decodes are propagated
+//@ func FromJSONFile$1
+//@   errdrop Close: closing a file opened for reading
+//@ func FromYAMLFile$1
+//@   errdrop Close: closing a file opened for reading
+//@ func fileExists
+//@   errdrop os.Stat: the error IS the answer (exists or not)
